@@ -97,7 +97,14 @@ Fixpoint seg_loop (i : nat) (lines : list string) (a : segs) : segs :=
   | [] => a
   | l :: t => seg_loop (S i) t (seg_step (classify l) i a)
   end.
-Definition parse_segments (lines : list string) : segs := seg_loop 1 lines (segs0 (length lines)).
+(* after the loop (since /repo 9d7a09d): a sample without a response marker closes REQUEST_EXECUTION at the end of the
+   snippet and has no RESPONSE_HANDLING range *)
+Definition seg_finish (a : segs) : segs :=
+  let re_e' := if negb (Nat.eqb (re_s a) 0) && Nat.eqb (re_e a) 0 then full_e a else re_e a in
+  let rh_e' := if Nat.eqb (rh_s a) 0 then 0 else rh_e a in
+  {| full_s := full_s a; full_e := full_e a; ci_s := ci_s a; ci_e := ci_e a; ri_s := ri_s a; ri_e := ri_e a;
+     re_s := re_s a; re_e := re_e'; rh_s := rh_s a; rh_e := rh_e' |}.
+Definition parse_segments (lines : list string) : segs := seg_finish (seg_loop 1 lines (segs0 (length lines))).
 
 (* Snippet.full_snippet: "".join(sample_lines[start - 1 : end]) — a start of 0 gives the slice [-1:end], which is
    empty because end is smaller than the number of lines *)
@@ -157,15 +164,18 @@ Fixpoint first_of_groups (seen : list string) (fs : list field) : list field :=
               | None => first_of_groups seen t
               end
   end.
-(* [field for field in message.required_fields if not field.oneof] *)
-Definition required_plain (f : field) : bool := f_required f && match f_oneof f with None => true | Some _ => false end.
+(* [field for field in message.required_fields if not field.oneof or field.proto3_optional]  (since /repo 42d2b00) *)
+Definition required_plain (f : field) : bool :=
+  f_required f && (match f_oneof f with None => true | Some _ => false end || f_p3opt f).
 Definition selected (fs : list field) : list field := app (first_of_groups [] fs) (filter required_plain fs).
 
 (* ".".join([prefix, name]).lstrip(".") *)
 Definition qual (prefix name : string) : string := sdrop_while (fun c => Ascii.eqb c "."%char) (prefix ++ "." ++ name).
 
-(* None: the recursion did not end within [fuel] nested calls (RecursionError), an unknown message, or an enum without values *)
-Fixpoint gro (fuel : nat) (sc : schema) (m prefix : string) : option (list (string * value)) :=
+(* [encl]: the messages the call is nested in (the code appends, the model prepends: only membership is tested).
+   A message field whose type is the message itself or one of the enclosing ones is skipped (since /repo 40893b0).
+   None: fuel exhausted, an unknown message, or an enum without values. *)
+Fixpoint gro (fuel : nat) (sc : schema) (m prefix : string) (encl : list string) : option (list (string * value)) :=
   match fuel with
   | O => None
   | S k =>
@@ -183,7 +193,8 @@ Fixpoint gro (fuel : nat) (sc : schema) (m prefix : string) : option (list (stri
                               | Some v => Some (app l [(fname, if f_repeated f then VList [VEnum v] else VEnum v)])
                               | None => None
                               end
-                | TMsg m' => match gro k sc m' fname with Some l' => Some (app l l') | None => None end
+                | TMsg m' => if mem_str m' (m :: encl) then Some l
+                             else match gro k sc m' fname (m :: encl) with Some l' => Some (app l l') | None => None end
                 end
             end) (selected fs) (Some [])
       end
@@ -198,9 +209,10 @@ Definition method_default (lro paged cs ss : bool) : cform :=
   else if cs then (if ss then RequestStreamingBidi else RequestStreamingClient)
   else if ss then RequestStreamingServer
   else Request.
-(* render_method_call: the call is awaited in the asyncio sample unless the form is LRO-promise or paged-all *)
+(* render_method_call: the call is awaited in the asyncio sample unless the form is LRO-promise
+   (since /repo c4938a6 the paged call is awaited too) *)
 Definition call_awaited (async : bool) (f : cform) : bool :=
-  async && match f with LongRunningRequestPromise | RequestPagedAll => false | _ => true end.
+  async && match f with LongRunningRequestPromise => false | _ => true end.
 (* render_calling_form: is there a "# Handle the response" line (and with it an end of REQUEST_EXECUTION) *)
 Definition has_response_marker (f : cform) (void : bool) : bool :=
   match f with
